@@ -32,6 +32,7 @@ func init() {
 	register("C19", "R8", 5, "a log line carries only what its own exchange and mode recorded: every structuredLogBuilder is a zero value local to one logging call - never taken from a pool, a package variable or a field (headers left by another exchange would be printed under a mode that never asked for them)", freshLogBuilder)
 	register("C03", "R11", 2, "the grace period of a half-closed tunnel starts when the first direction finishes: gracefulCloseAfter waits on a timer it arms itself (time.After/NewTimer inside it, not one handed in by the caller), and bicopy creates no timer or deadline before the first completion report", graceStartsAtHalfClose)
 	register("C03", "R12", 1, "the sockets a tunnel runs over carry no leftover deadline: a Set*Deadline armed by a dialer (package dialvia) on the connection it returns is cleared with the zero time on every successful return (the dial is bounded by its context; a deadline left behind cuts the tunnel off later)", dialerLeavesNoDeadline)
+	register("C03", "R13", 1, "the two directions of a tunnel never share a buffer: the scratch buffer copier.copy hands to io.CopyBuffer is obtained inside copy itself (from the pool or freshly made), once per call - a buffer passed in or kept in a field would be written by both directions at once", ownCopyBuffer)
 	register("C10", "R14", 2, "an announced SETTINGS_HEADER_TABLE_SIZE is always applied: in updateTableSize the decoder and the encoder are both given the new size unconditionally (a skipped update leaves the encoder referencing table entries the peer no longer keeps)", tableSizeApplied)
 	register("C13", "R9", 2, "what Connect hands back is always released: in both handleConnectRequest variants every exit after the Connect call has closed the returned connection and response body unless they were tested to be nil - also when Connect returns them together with an error", connectResultsReleased)
 	register("C20", "R6", 1, "limits reach every listener: MultiListener.Listen hands each Listener the element's ListenerConfig unchanged (ReadLimit and WriteLimit included), not a rebuilt copy", multiListenerConfigKept)
@@ -1123,5 +1124,82 @@ func connectResultsReleased(r *R) {
 			}
 		}
 		r.check(n > 0 && len(why) == 0, recv+".handleConnectRequest#release", fn.Pos(), fmt.Sprintf("%d exits after Connect, connection and body released on each", n), strings.Join(dedupStrings(why), "; "))
+	}
+}
+
+func ownCopyBuffer(r *R) {
+	cp := r.method(mpkg, "copier", "copy")
+	n := 0
+	eachInstr(cp, func(ins ssa.Instruction) {
+		c, ok := ins.(*ssa.Call)
+		if !ok || calleeName(c.Common()) != "io.CopyBuffer" {
+			return
+		}
+		n++
+		own, foreign := false, ""
+		var walk func(v ssa.Value, depth int)
+		seen := map[ssa.Value]bool{}
+		walk = func(v ssa.Value, depth int) {
+			if v == nil || seen[v] || depth > 12 {
+				return
+			}
+			seen[v] = true
+			switch x := v.(type) {
+			case *ssa.Call:
+				switch calleeName(x.Common()) {
+				case "(*sync.Pool).Get":
+					own = true
+				default:
+					if g := staticCallee(x.Common()); g != nil && isNewHelper(g) {
+						for _, rv := range returnValues(g, 0) {
+							walk(rv, depth+1)
+						}
+						return
+					}
+					foreign = shorten(describe(x), 60)
+				}
+			case *ssa.MakeSlice:
+				own = true
+			case *ssa.Parameter:
+				if a, ok := resolveParam(x); ok {
+					walk(a, depth+1)
+					return
+				}
+				foreign = "parameter " + x.Name()
+			case *ssa.FreeVar, *ssa.Global:
+				foreign = describe(v)
+			case *ssa.FieldAddr:
+				foreign = "field " + describe(v)
+			case *ssa.Phi:
+				for _, e := range x.Edges {
+					walk(e, depth+1)
+				}
+			case *ssa.UnOp:
+				if a, ok := x.X.(*ssa.Alloc); ok {
+					for _, s := range storesTo(a) {
+						walk(s, depth+1)
+					}
+					return
+				}
+				walk(x.X, depth+1)
+			case *ssa.TypeAssert:
+				walk(x.X, depth+1)
+			case *ssa.Extract:
+				walk(x.Tuple, depth+1)
+			case *ssa.Slice:
+				walk(x.X, depth+1)
+			case *ssa.ChangeType:
+				walk(x.X, depth+1)
+			case *ssa.Convert:
+				walk(x.X, depth+1)
+			case *ssa.MakeInterface:
+				walk(x.X, depth+1)
+			}
+		}
+		walk(c.Common().Args[2], 0)
+		r.check(own && foreign == "", "copier.copy#own-buffer", c.Pos(), "scratch buffer obtained inside copy", "the scratch buffer comes from "+foreign+": both directions of a tunnel (each runs copy on its own goroutine) would read into the same array, one overwriting what the other has not written yet")
+	})
+	if n == 0 {
+		r.bad("copier.copy#own-buffer", cp.Pos(), "copy does not use io.CopyBuffer")
 	}
 }
